@@ -2,7 +2,7 @@
    Statements only; proofs are `exact <lemma>` into proofs/ConvergeProofs.v.
    The concrete step is Outcome.new_defs (plugin_outcome.go) on the votes of Observe.honest_votes (plugin_observation.go). *)
 From stdpp Require Import gmap.
-From DS Require Import Base RepoConstants StreamValue Outcome Observe ObservationCodec Converge ConvergeProofs ValidateProofs.
+From DS Require Import Base RepoConstants StreamValue Outcome OutcomeCodec Observe ObservationCodec Converge ConvergeProofs ValidateProofs.
 
 (* the two vote limits in /repo are equal and positive, so the property's bound ceil(max(#remove, #add-or-replace)/5) applies *)
 Example C14_gen_limits : rm_limit = vote_limit /\ (0 < vote_limit)%nat /\ vote_limit = 5%nat /\ chan_cap = 2000%nat.
@@ -39,6 +39,16 @@ Theorem C14_honest_observation_validates : forall codec_ok has_pred prev expecte
     {| ro_att := att; ro_retire := retire; ro_ts := ts; ro_removes := fst votes; ro_updates := snd votes; ro_values := vals |} = true.
 Proof. exact honest_votes_validate. Qed.
 Print Assumptions C14_honest_observation_validates.
+(* the same for Plugin.Observation AS A WHOLE (previous outcome bytes decoded, retired short-cut, attestation only
+   while staging with a predecessor, votes, values of exactly the streams the previous outcome needs): whatever it
+   returns passes ValidateObservation — the size limit on the values follows from the verification of the previous
+   outcome's definitions, it is not assumed; the data source is assumed to wrap only decimals in timestamped values *)
+Theorem C14_observation_validates : forall codec_ok cf seq prev_bytes now cache_att should_retire expected source_vals source_fails ob,
+  plugin_observation codec_ok cf seq prev_bytes now cache_att should_retire expected source_vals source_fails = Ok (Some ob) ->
+  (forall s v, source_vals !! s = Some v -> match v with STsv _ (SDec _) => True | STsv _ _ => False | _ => True end) ->
+  validate_observation codec_ok (c_has_pred cf) ob = true.
+Proof. exact plugin_observation_validates. Qed.
+Print Assumptions C14_observation_validates.
 Theorem C14_verify_defs_monotone : forall codec_ok (m1 m2 : gmap Z chandef),
   m1 ⊆ m2 -> verify_defs codec_ok m2 = true -> verify_defs codec_ok m1 = true.
 Proof. exact verify_defs_mono. Qed.
